@@ -211,6 +211,8 @@ class VProcess:
             self.world.commit_all(self.child)
             if self.child.state == 'running' and self.child.linger and timeout is None:
                 self.world.record('join-blocks-forever', self.child.idx, self.child.task_key)
+                for cb in self.world.on_join_block:
+                    cb(self.world, self.child)
                 self.world.record('livelock')
                 raise Livelock()
 
@@ -686,11 +688,13 @@ class VWorld:
         self.on_start: list[Callable] = []
         self.on_rest: list[Callable] = []
         self.on_killed: list[Callable] = []
+        self.on_join_block: list[Callable] = []
         self.interrupted = 0              # number of interrupts delivered to the parent so far (C14)
         self.staged: Optional[list] = None
         self.draining: set = set()
         self.burst_reduced = False
         self.infinite_wait = False
+        self.state_when_left: dict = {}
         self.linger_labels: frozenset = frozenset()
         self.frozen = False               # after a second interrupt: executing children make no progress unless terminated
 
@@ -1086,6 +1090,8 @@ class VWorld:
     def finish_children(self):
         """After run_tasks has left: let every child that was never stopped run to its end
         (their effects become visible; used by the C14 / C19 oracles)."""
+        # what run_tasks left behind, before anything else is allowed to happen
+        self.state_when_left = {ch.idx: (ch.state, ch.result_committed) for ch in self.children}
         for ch in self.children:
             if ch.state == 'running' and not getattr(ch, 'doomed', False):
                 self.commit_all(ch)
